@@ -272,7 +272,7 @@ func invWorker(w *vf.Worker) {
 				var v *mlrval.Mlrval
 				got, pn := call(func() *mlrval.Mlrval { v = bifs.BIF_json_parse(sval(T)); return v })
 				variant := []string{"ascii-escaped", "raw-utf8"}[vi]
-				ck.cmp("json[parse-string:"+variant+"]", len(s), fmt.Sprintf("json_parse(%s)", q(T)), "json_parse", got, pn, "s:"+hx(s), map[string]any{"json": T, "string": s})
+				ck.cmp("json[parse-string "+variant+"]", len(s), fmt.Sprintf("json_parse(%s)", q(T)), "json_parse", got, pn, "s:"+hx(s), map[string]any{"json": T, "string": s})
 			}
 			if s == "" {
 				continue // json_stringify of the empty value: see the document cases
